@@ -1767,10 +1767,21 @@ def run_repr_cases(ctx, rng):
 # alias table
 
 def run_aliases(ctx, drv, rng):
-    case = gen_case(rng.fork(12345), 0)
-    case.update({"crop": False, "sub": None})
-    r, c = case["scan"]
-    dp = make_dp(case, gen_stack(1, len(case["pix"]), r, c, "int"))
+    # a problem on which the five kernels give five different reconstructions (so that a name resolved to the wrong kernel
+    # shows); candidates are tried in a fixed order
+    kw0 = dict(upsampling_factor=1, q_lowpass=None, q_highpass=None, parallax_flip_phase=False, verbose=False)
+    for attempt in range(8):
+        case = gen_case(rng.fork(12345 + attempt), attempt)
+        case.update({"crop": False, "sub": None})
+        r, c = case["scan"]
+        dp = make_dp(case, gen_stack(1, len(case["pix"]), r, c, "int"))
+        outs = []
+        for k in KERNELS:
+            dp.reconstruct(deconvolution_kernel=k, **kw0)
+            outs.append(dp.corrected_stack.detach().numpy().copy())
+        if all(not np.array_equal(outs[a], outs[b]) for a in range(5) for b in range(a)):
+            break
+    ctx.dist[f"alias:problem-with-distinct-kernel-results-found-at-attempt-{attempt}"] += 1
     names = []
     for k, al in ALIASES.items():
         for a in al:
@@ -1803,8 +1814,9 @@ def run_aliases(ctx, drv, rng):
         except Exception as e:  # noqa
             return {"err": type(e).__name__}
         got = dp.corrected_stack.detach().numpy()
-        hits = [k for k in KERNELS if got.shape == refs[k].shape and np.array_equal(got, refs[k])]
-        return {"ok": hits[0] if hits else "<result of no kernel>"}
+        # every kernel whose reconstruction this is, bit for bit (two kernels may coincide on a problem, e.g. ssb = obf
+        # when |gamma| is 0 or 1 everywhere)
+        return {"ok": [k for k in KERNELS if got.shape == refs[k].shape and np.array_equal(got, refs[k])]}
 
     private = getattr(dp, "_normalize_kernel_name", None)      # internal stage, only if the helper still exists under this name
     if private is None:
@@ -1814,7 +1826,8 @@ def run_aliases(ctx, drv, rng):
         m = drv.ask({"op": "normalize", "name": nm})
         ctx.count()
         ctx.dist["alias:" + ("known" if nm.lower() in valid else "unknown")] += 1
-        if m != impl:
+        agree = (m.get("ok") in impl["ok"]) if ("ok" in m and "ok" in impl) else (m == impl)
+        if not agree:
             ctx.disagree("alias", {"name": nm}, m, impl, note="kernel the public reconstruct() resolves the name to")
         if private is not None:
             try:
@@ -1824,7 +1837,8 @@ def run_aliases(ctx, drv, rng):
             if m != pimpl:
                 ctx.disagree("alias-internal", {"name": nm}, m, pimpl, note="_normalize_kernel_name")
         want = {"ok": valid[nm.lower()]} if nm.lower() in valid else {"err": "ValueError"}
-        if impl != want:
+        holds = (want["ok"] in impl.get("ok", [])) if "ok" in want else (impl == want)
+        if not holds:
             ctx.pred_fail("alias-table", "reconstruct(deconvolution_kernel=<alias>) is not the reconstruction of its kernel / unknown "
                           "name not rejected with ValueError", {"alias_name": nm}, observed=impl, required=want)
 
